@@ -67,3 +67,16 @@ fn c13_lookup_is_by_name_or_alias_only() {
     assert_eq!(redirect(&e, "https://e.test/s.js"), None);
     assert_eq!(redirect(&e, "https://f.test/s.js"), Some(data_url("noop")));
 }
+
+/// OBL C13.witness.redirect_value_text
+#[test]
+fn c13_redirect_value_is_the_whole_option_text() {
+    // "the resource named by the ... redirect option": the name is the option's whole value up to the optional `:priority` suffix,
+    // also when it contains '=' or ','-free punctuation
+    let mut e = Engine::from_rules(["||a.test^$redirect=shim=v2.js:10", "||a.test^$redirect-rule=other.js:5", "||b.test^$redirect=shim", "||c.test^$redirect-rule=shim=v2.js",
+                                    "||c.test^", "@@||c.test/x^$redirect-rule=shim"], ParseOptions::default());
+    e.use_resources([res("shim=v2.js", &[], "v2"), res("other.js", &[], "other"), res("shim", &[], "plain")]);
+    assert_eq!(redirect(&e, "https://a.test/s.js"), Some(data_url("v2")));
+    assert_eq!(redirect(&e, "https://b.test/s.js"), Some(data_url("plain")));
+    assert_eq!(redirect(&e, "https://c.test/x/s.js"), Some(data_url("v2")), "an exception for `shim` must not cancel `shim=v2.js`");
+}
